@@ -194,6 +194,14 @@ T_INC = ("% if m == 'inc':\n<%include file=\"${u}\"/>\\\n% elif m == 'gt':\n${lo
 T_INH = "<%inherit file=\"${context['u']}\"/>not rendered"
 T_NST = "<%namespace name=\"ns\" file=\"${context['u']}\"/>${ns.body()}"
 T_NSC = "<%namespace name=\"ns\" file=\"${context['u']}\"/><%ns:body/>"            # reached through a <%ns:def> call tag
+# Two callers in ONE render (one Context: context.namespaces and the lookup are shared): the same relative URI asked from
+# caller A and then from caller B.  The model has no history: each answer is the one TLC exported for that caller alone.
+T_CHAIN = ("<%\n    from mako import exceptions as _x\n    _parts = []\n    for _c in cs:\n        try:\n"
+           "            _parts.append('F' + capture(local.include_file, _c))\n        except _x.TemplateLookupException:\n"
+           "            _parts.append('E')\n        except Exception as _e:\n            _parts.append('X:' + type(_e).__name__)\n"
+           "    context.write('\\x1e'.join(_parts))\n%>")
+CHAIN_URI = "/verif_chain_driver"
+CHAIN_MODES = ["ns", "inc", "ns", "gt", "ns", "if"]
 T_STATIC = {"sinc": "<%%include file=\"%s\"/>", "sinh": "<%%inherit file=\"%s\"/>not rendered",
             "snst": "<%%namespace name=\"ns\" file=\"%s\"/>${ns.body()}"}
 
@@ -331,6 +339,28 @@ class World:
             ob["kind"] = "F"
             ob["out"] = out
         return self._run(fn)
+
+    def chain(self, ctxs, mode, u):
+        """[observation per caller]: the callers' T_INC templates rendered one after the other inside one render."""
+        cus = [self.desc["callers"][c] for c in ctxs]
+        for cu in cus:
+            if cu not in self.lk._collection:
+                self.lk.put_string(cu, T_INC)
+        if CHAIN_URI not in self.lk._collection:
+            self.lk.put_string(CHAIN_URI, T_CHAIN)
+
+        def fn(ob):
+            ob["out"] = self.lk.get_template(CHAIN_URI).render(u=u, m=mode, cs=cus)
+            ob["kind"] = "F"
+        whole = self._run(fn)
+        if whole["kind"] != "F":
+            return [whole] * len(ctxs)
+        parts = whole["out"].split("\x1e")
+        if len(parts) != len(ctxs):
+            return [dict(whole, kind="X:chain-output", msg=whole["out"][:200])] * len(ctxs)
+        # file operations are audited per single request elsewhere; a chain's log mixes two requests
+        return [{"kind": p if p[0] != "F" else "F", "path": "", "mod": "", "out": p[1:] if p[0] == "F" else None, "log": []}
+                for p in parts]
 
     def template(self, u):
         from mako.template import Template
@@ -510,6 +540,7 @@ def _replay_slice(job):
     wt = World(os.path.join(base, "Tm"), world, modon, with_callers=False, cwd=False, extras=extras)
     optname = ",".join(sorted(extras)) or "defaults"
     mism = []
+    abs_callers = sorted(c for c, cu in world["callers"].items() if cu.startswith("/") and not cu.startswith("//")) or [None]
     hashes = array.array("Q")
     n = 0
     nrows = 0
@@ -548,6 +579,22 @@ def _replay_slice(job):
                     if m == "nn" and not cu.startswith("/") and "/" in cu:
                         continue        # get_namespace(local.uri) re-resolves a relative caller URI against itself
                     trials.append((SITE_OF_MODE[m], wl, (lambda m=m: wl.call(ctx, m, u))))
+            if ctx in world["callers"] and ctx == abs_callers[idx % len(abs_callers)] and len(abs_callers) > 1:
+                # one chain per URI: this caller and another one, in both orders over the URIs, same render
+                other = abs_callers[(idx % len(abs_callers) + 1 + (idx // 7) % (len(abs_callers) - 1)) % len(abs_callers)]
+                if exp.get(other):
+                    cm = CHAIN_MODES[(idx // 3) % len(CHAIN_MODES)]
+                    pair = [ctx, other] if (idx // 5) % 2 else [other, ctx]
+                    obs = wl.chain(pair, cm, u)
+                    for c2, ob in zip(pair, obs):
+                        n += 1
+                        site = SITE_OF_MODE[cm] + "(second caller in one render)" if c2 == pair[1] else SITE_OF_MODE[cm]
+                        bad = judge(wl, site, exp[c2], ob)
+                        if bad and len(mism) < 40:
+                            d = dict(bad[1])
+                            d.pop("log", None)
+                            mism.append({"site": site, "mode": bad[0], "uri": u, "ctx": "+".join(pair), "allowed": sorted(exp[c2]),
+                                         "observed": d, "module_options": wl.mode, "other_options": optname})
             for site, w, fn in trials:
                 ob = fn()
                 n += 1
